@@ -10,6 +10,7 @@ pub fn run(which: &str) -> i32 {
     let rt = tokio::runtime::Builder::new_current_thread().enable_all().build().unwrap();
     let confirmed = match which {
         "c07-timers-survive-restart" => rt.block_on(c07_timers_survive_restart()),
+        "c08-already-running-polarity" => rt.block_on(c08_already_running_polarity()),
         _ => {
             eprintln!("unknown finding {which}");
             return 2;
@@ -61,4 +62,22 @@ async fn c07_timers_survive_restart() -> bool {
     // a tick registered by incarnation 1 handled by incarnation 2 well after the restart
     let late: Vec<_> = seen.lock().unwrap().iter().filter(|(by, reg)| *by == 2 && *reg == 1).cloned().collect();
     late.len() > 2
+}
+
+#[derive(Default)]
+struct Svc;
+impl Actor for Svc {}
+impl Service for Svc {}
+
+/// C08: already_running must report Some(true) for a registered live service and Some(false) once it terminated.
+async fn c08_already_running_polarity() -> bool {
+    let before = Svc::already_running().await;
+    let mut addr = Svc::from_registry().await;
+    addr.ping().await.unwrap();
+    let alive = Svc::already_running().await;
+    addr.stop().unwrap();
+    let _ = addr.clone().await;
+    let dead = Svc::already_running().await;
+    println!("unregistered={before:?} alive={alive:?} terminated={dead:?}");
+    before.is_none() && (alive != Some(true) || dead != Some(false))
 }
